@@ -4,6 +4,8 @@ package c12
 import (
 	"bytes"
 	"context"
+	"crypto/sha512"
+	"encoding/binary"
 	"errors"
 	"fmt"
 	"io"
@@ -29,7 +31,6 @@ import (
 	"github.com/oasisprotocol/oasis-core/go/storage/mkvs/db/badger"
 	"github.com/oasisprotocol/oasis-core/go/storage/mkvs/db/pathbadger"
 	"github.com/oasisprotocol/oasis-core/go/storage/mkvs/node"
-	"github.com/oasisprotocol/oasis-core/go/storage/mkvs/syncer"
 
 	"verifharness/ev"
 	"verifharness/kv"
@@ -37,9 +38,8 @@ import (
 
 var ctx = context.Background()
 
-// ns is the namespace of all databases of this check. (kv.Namespace has reserved flag bits set, so a
-// database created with it cannot be opened a second time: the stored metadata fails to decode with
-// "malformed namespace". Reopening the restored database is part of this check, hence a valid one.)
+// ns is the namespace of all databases of this check: a valid test namespace, so that a restored
+// on-disk database can be closed and opened again (the stored metadata must decode).
 var ns = common.NewTestNamespaceFromSeed([]byte("verif harness C12"), 0)
 
 func openDB(backend, dir string, memoryOnly bool) (dbApi.NodeDB, error) {
@@ -355,36 +355,124 @@ func encodeChunk(entries [][]byte) []byte {
 	return buf.Bytes()
 }
 
-func collectLeaves(ptr *node.Pointer, out kv.Model, seen *int) {
-	if ptr == nil || ptr.Node == nil {
-		return
+// sum is SHA-512/256 over the concatenated parts (the MKVS node hash function).
+func sum(parts ...[]byte) hash.Hash {
+	d := sha512.New512_256()
+	for _, p := range parts {
+		d.Write(p)
 	}
-	switch n := ptr.Node.(type) {
-	case *node.LeafNode:
-		out[string(n.Key)] = append([]byte{}, n.Value...)
-		*seen++
-	case *node.InternalNode:
-		collectLeaves(n.LeafNode, out, seen)
-		collectLeaves(n.Left, out, seen)
-		collectLeaves(n.Right, out, seen)
-	}
+	var out hash.Hash
+	copy(out[:], d.Sum(nil))
+	return out
 }
 
-// chunkLeaves verifies a chunk as a version-0 proof of root and returns the leaves it carries.
+func leafHash(k, v []byte) hash.Hash {
+	var kl, vl [4]byte
+	binary.LittleEndian.PutUint32(kl[:], uint32(len(k)))
+	binary.LittleEndian.PutUint32(vl[:], uint32(len(v)))
+	return sum([]byte{0x00}, kl[:], k, vl[:], v)
+}
+
+// evalProof evaluates the entries of a chunk as a version-0 proof (pre-order: nil = empty subtree,
+// 0x02 = subtree hash, 0x01 = full node followed by its children) WITHOUT the proof verifier under
+// test: node hashes are recomputed here from the decoded node fields. It returns the root hash the
+// entries commit to and the leaves they carry.
+func evalProof(entries [][]byte) (hash.Hash, kv.Model, int, error) {
+	pos, seen := 0, 0
+	leaves := kv.Model{}
+	addLeaf := func(p *node.Pointer) (hash.Hash, error) {
+		if p == nil || p.Node == nil {
+			return sum(), nil
+		}
+		ln, ok := p.Node.(*node.LeafNode)
+		if !ok {
+			return hash.Hash{}, errors.New("leaf pointer holds no leaf")
+		}
+		leaves[string(ln.Key)] = append([]byte{}, ln.Value...)
+		seen++
+		return leafHash(ln.Key, ln.Value), nil
+	}
+	var walk func(depth int) (hash.Hash, error)
+	walk = func(depth int) (hash.Hash, error) {
+		if pos >= len(entries) {
+			return hash.Hash{}, errors.New("proof ends early")
+		}
+		if depth > 1<<14 {
+			return hash.Hash{}, errors.New("proof too deep")
+		}
+		e := entries[pos]
+		pos++
+		if e == nil {
+			return sum(), nil
+		}
+		if len(e) == 0 {
+			return hash.Hash{}, errors.New("empty entry")
+		}
+		switch e[0] {
+		case 0x02:
+			var h hash.Hash
+			if len(e) != 1+len(h) {
+				return hash.Hash{}, errors.New("bad hash entry")
+			}
+			copy(h[:], e[1:])
+			return h, nil
+		case 0x01:
+			n, err := node.UnmarshalBinary(e[1:])
+			if err != nil {
+				return hash.Hash{}, err
+			}
+			switch n := n.(type) {
+			case *node.LeafNode:
+				return addLeaf(&node.Pointer{Node: n})
+			case *node.InternalNode:
+				lh, err := addLeaf(n.LeafNode)
+				if err != nil {
+					return hash.Hash{}, err
+				}
+				l, err := walk(depth + 1)
+				if err != nil {
+					return hash.Hash{}, err
+				}
+				r, err := walk(depth + 1)
+				if err != nil {
+					return hash.Hash{}, err
+				}
+				var lb [2]byte
+				binary.LittleEndian.PutUint16(lb[:], uint16(n.LabelBitLength))
+				return sum([]byte{0x01}, lb[:], n.Label, lh[:], l[:], r[:]), nil
+			}
+			return hash.Hash{}, errors.New("unknown node kind")
+		}
+		return hash.Hash{}, fmt.Errorf("unknown entry kind %#x", e[0])
+	}
+	root, err := walk(0)
+	if err != nil {
+		return hash.Hash{}, nil, 0, err
+	}
+	if pos != len(entries) {
+		return hash.Hash{}, nil, 0, errors.New("unused entries")
+	}
+	return root, leaves, seen, nil
+}
+
+// chunkLeaves decodes a chunk, checks independently that it commits to root and returns the leaves
+// it carries.
 func chunkLeaves(b []byte, root hash.Hash) (kv.Model, int, error) {
 	entries, err := decodeChunk(b)
 	if err != nil {
 		return nil, 0, err
 	}
-	var pv syncer.ProofVerifier
-	ptr, err := pv.VerifyProof(ctx, root, &syncer.Proof{V: 0, UntrustedRoot: root, Entries: entries})
+	if len(entries) == 0 {
+		return nil, 0, errors.New("no entries")
+	}
+	h, leaves, seen, err := evalProof(entries)
 	if err != nil {
 		return nil, 0, err
 	}
-	out := kv.Model{}
-	seen := 0
-	collectLeaves(ptr, out, &seen)
-	return out, seen, nil
+	if h != root {
+		return nil, 0, fmt.Errorf("entries commit to %s, not to %s", h, root)
+	}
+	return leaves, seen, nil
 }
 
 // ---------------------------------------------------------------------------------------
